@@ -454,7 +454,7 @@ def boundary_cases():
 
 def gen(seed, tier):
     rnd = random.Random(seed * 1000003 + 17)
-    total = {'quick': 4000, 'thorough': 120000, 'search': 6000}.get(tier, 4000)
+    total = {'quick': 6000, 'thorough': 300000, 'search': 6000}.get(tier, 6000)
     out = [(c, {'kind': 'boundary-' + k.rsplit('-cap', 1)[0] if '-cap' in k else 'boundary-' + k}) for c, k in boundary_cases()]
     g = Gen(rnd)
     while len(out) < total:
@@ -503,4 +503,4 @@ LEVEL_NOTE = ('Trusted: Coq kernel/vm_compute, extraction+driver (sample cross-c
               'std::string and vsnprintf modelled; memory exhaustion and INT_MAX-long expansions excluded.')
 TECHNIQUE = 'Coq refinement proof of an executable model + differential correspondence with the implementation'
 DESIGN_REF = 'DESIGN.md section 5, C17'
-READY = False
+READY = True
